@@ -7,7 +7,7 @@
    mh / pe are maxHandles / pruneEvery (any integers). *)
 From Coq Require Import ZArith List Bool.
 Import ListNotations.
-From SCMO Require Import Lib.Val Gen.GenHandles Model.C19 Proofs.C19 Proofs.C19_split Proofs.C19_leak Proofs.C19_tie Proofs.C19_main.
+From SCMO Require Import Lib.Val Gen.GenHandles Model.C19 Model.C19x Proofs.C19 Proofs.C19_split Proofs.C19_leak Proofs.C19_tie Proofs.C19_main Proofs.C19x.
 Open Scope Z_scope.
 
 (* MAIN.  For every write sequence, every maxHandles / pruneEvery and every fault oracle under which an
@@ -189,3 +189,169 @@ Example C19_bamsplit_example :
   end.
 Proof. vm_compute. repeat split; reflexivity. Qed.
 Print Assumptions C19_bamsplit_example.
+
+(* ==================================================================================================
+   HISTORIES THAT CONTINUE AFTER A RAISE (Model/C19x.v).  The caller catches what a write() raises and goes on
+   writing with the same HandleLimiter.  hl_hist is the list of results of ALL operations (XOk / XRaise, each with
+   the state the call left behind), hl_final the state after the last one, x_close is close();
+   [completed ops statuses] are the operations whose call returned.  The kernel is the hl_* kernel above plus
+   the regenerated decision g_giveup_drops_placeholder (is the empty placeholder entry of the path removed
+   before the exception leaves write()); [ghosts] are placeholder entries left behind. *)
+
+(* T: the give-up branch removes the placeholder (fixes/C19-D33.patch) *)
+Theorem C19_giveup_shape : g_giveup_drops_placeholder = true.
+Proof. exact s_giveup_drops. Qed.
+Print Assumptions C19_giveup_shape.
+
+(* MAIN (histories).  ANY oracle, any maxHandles / pruneEvery, any operation list: every operation has a result,
+   after close() nothing is open and every file holds exactly the strings of the COMPLETED writes to it, in order
+   (nothing of a call that raised, nothing lost after a raise).  forceAppend used consistently per path. *)
+Theorem C19_hist_content : forall mh pe orc init ops,
+  fa_consistentb ops = true ->
+  length (hl_hist mh pe orc init ops) = length ops /\
+  opens (base (x_close (hl_final mh pe orc init ops))) = [] /\
+  ghosts (x_close (hl_final mh pe orc init ops)) = [] /\
+  forall p, fs (base (x_close (hl_final mh pe orc init ops))) p
+            = expected init (completed ops (map xstatus (hl_hist mh pe orc init ops))) p.
+Proof. exact hl_hist_content. Qed.
+Print Assumptions C19_hist_content.
+
+(* the same without forceAppend (as FastqHandle uses it), spelled out per file *)
+Theorem C19_hist_content_plain : forall mh pe orc init ops,
+  (forall o, In o ops -> w_fa o = false) ->
+  let done := completed ops (map xstatus (hl_hist mh pe orc init ops)) in
+  let fin := x_close (hl_final mh pe orc init ops) in
+  (forall p, In p (map w_path done) -> fs (base fin) p = Some (writes_of p done)) /\
+  (forall p, ~ In p (map w_path done) -> fs (base fin) p = init p).
+Proof. exact hl_hist_content_plain. Qed.
+Print Assumptions C19_hist_content_plain.
+
+(* ANY oracle: whichever operation of the history raises, it raises the OSError of an open() of its own path
+   that failed while no descriptor was open (the last open() call made), and it leaves nothing open and no
+   placeholder behind *)
+Theorem C19_hist_raise_only_if_hopeless : forall mh pe orc init ops j e xs',
+  nth_error (hl_hist mh pe orc init ops) j = Some (XRaise e xs') ->
+  e = EOS /\ exists o i, nth_error ops j = Some o /\ att (base xs') = S i /\
+                         orc i (w_path o) 0%nat = true /\ opens (base xs') = [] /\ ghosts xs' = [].
+Proof. exact hl_hist_raise. Qed.
+Print Assumptions C19_hist_raise_only_if_hopeless.
+
+(* ANY oracle: a write to a path whose open() cannot fail with nothing else open returns - wherever it stands
+   in the history, in particular after any number of raises for other (hopeless) paths *)
+Theorem C19_hist_openable_never_raises : forall mh pe orc init ops j o,
+  nth_error ops j = Some o -> (forall i, orc i (w_path o) 0%nat = false) ->
+  exists xs, nth_error (hl_hist mh pe orc init ops) j = Some (XOk xs).
+Proof. exact hl_hist_openable. Qed.
+Print Assumptions C19_hist_openable_never_raises.
+
+(* under the hypothesis of C19_content every operation completes *)
+Theorem C19_hist_good_oracle_completes : forall mh pe orc init ops,
+  (forall i o, In o ops -> orc i (w_path o) 0%nat = false) ->
+  completed ops (map xstatus (hl_hist mh pe orc init ops)) = ops.
+Proof. exact hl_hist_good_oracle. Qed.
+Print Assumptions C19_hist_good_oracle_completes.
+
+(* ANY oracle, any history: close() has closed exactly the descriptors that were opened *)
+Theorem C19_hist_no_leak : forall mh pe orc init ops,
+  n_opened (trace (base (x_close (hl_final mh pe orc init ops))))
+  = n_closed (trace (base (x_close (hl_final mh pe orc init ops)))).
+Proof. exact hl_hist_no_leak. Qed.
+Print Assumptions C19_hist_no_leak.
+
+(* ANY oracle: the handle bound holds after every operation of the history *)
+Theorem C19_hist_handles_bounded : forall mh pe orc init ops j x,
+  nth_error (hl_hist mh pe orc init ops) j = Some x ->
+  Z.of_nat (length (opens (base (xstate_of x)))) <= Z.max 0 mh + Z.max 0 (pe - 1).
+Proof. exact hl_hist_handles_bounded. Qed.
+Print Assumptions C19_hist_handles_bounded.
+
+(* a raise leaves a writer with nothing open, the same seen set (hence the same append-vs-truncate decisions),
+   the same counter and the same files; the rest of the history is the history of that fresh writer *)
+Theorem C19_hist_resume : forall mh pe orc init ops1 o ops2 e xs',
+  hl_xwrite mh pe orc (hl_final mh pe orc init ops1) o = XRaise e xs' ->
+  let st := base (hl_final mh pe orc init ops1) in
+  let fw := fresh_writer (seen st) (ctr st) (clock st) (att (base xs')) (fs st) (trace (base xs')) in
+  xs' = fw /\
+  hl_hist mh pe orc init (ops1 ++ o :: ops2)
+  = hl_hist mh pe orc init ops1
+    ++ XRaise e fw :: x_hist_from g_giveup_drops_placeholder mh pe orc ops2 fw.
+Proof. exact hl_hist_resume. Qed.
+Print Assumptions C19_hist_resume.
+
+(* the run of the theorems above (hl_run_ops: it ends at the first call that raises) is this history cut at its first
+   raise: k calls returned, then - unless all returned - operation k is the raise the run reports, with the same state *)
+Theorem C19_hist_extends_run : forall mh pe orc init ops k r,
+  hl_run_ops mh pe orc init ops = (k, r) ->
+  firstn k (map xstatus (hl_hist mh pe orc init ops)) = repeat 0 k /\
+  match r with
+  | Ok s => k = length ops /\ hl_final mh pe orc init ops = lift s
+  | Raise e s => nth_error (hl_hist mh pe orc init ops) k = Some (XRaise e (lift s))
+  end.
+Proof. exact hl_run_is_hist_prefix. Qed.
+Print Assumptions C19_hist_extends_run.
+
+(* the boolean specification K evaluates on the implementation's histories (mode 5 of run_C19x) holds of the model
+   for every fault script: one result per operation, a raise only as OSError and only for a path whose open() can
+   fail under the script with nothing open, files = completed writes *)
+Theorem C19_hist_spec_sound : forall mh pe s init ops univ,
+  fa_consistentb ops = true ->
+  spec_histb s init ops univ (map xstatus (hl_hist mh pe (script_oracle s) init ops))
+             (fs (base (x_close (hl_final mh pe (script_oracle s) init ops)))) = true.
+Proof. exact hl_hist_spec_sound. Qed.
+Print Assumptions C19_hist_spec_sound.
+
+Theorem C19_script_alone : forall s p, script_can_fail_alone s p = false ->
+  forall i, script_oracle s i p 0%nat = false.
+Proof. exact script_alone_sound. Qed.
+Print Assumptions C19_script_alone.
+
+(* D33: the code before the repair (kernel with [drops := false]: the placeholder stays) violates
+   C19_hist_raise_only_if_hopeless / C19_hist_openable_never_raises: after the legitimate raise for the hopeless
+   path 109, the write to the openable path 7 raises KeyError (prune() meets the placeholder: maxHandles 1,
+   pruneEvery 1); the counter is not reset and two entries stay in openHandles. *)
+Theorem C19_D33_unrepaired_refuted :
+  let h := x_hist_from false 1 1 (script_oracle d33_script) d33_ops (x_init (fun _ => None)) in
+  let xs := x_final_from false 1 1 (script_oracle d33_script) d33_ops (x_init (fun _ => None)) in
+  map xstatus h = [0; EOS; EKEY] /\ script_can_fail_alone d33_script 7 = false /\
+  ghosts xs = [109] /\ ctr (base xs) = 1 /\ x_entries xs = 2.
+Proof. exact d33_unrepaired_refuted. Qed.
+Print Assumptions C19_D33_unrepaired_refuted.
+
+(* D33, second face: one transient failure of the only path; the next write to it could open the file
+   (oracle false) but raises KeyError and its record is lost; with the placeholder dropped it is written *)
+Theorem C19_D33_unrepaired_loses_record :
+  let run d := (map xstatus (x_hist_from d 4 100 (script_oracle d33_script2) d33_ops2 (x_init (fun _ => None))),
+                fs (base (x_close (x_final_from d 4 100 (script_oracle d33_script2) d33_ops2 (x_init (fun _ => None))))) 109) in
+  script_oracle d33_script2 1%nat 109 0%nat = false /\
+  run false = ([EOS; EKEY], None) /\ run true = ([EOS; 0], Some [49; 59]).
+Proof. exact d33_unrepaired_loses_record. Qed.
+Print Assumptions C19_D33_unrepaired_loses_record.
+
+(* non-vacuity: a history that continues after two legitimate raises (path 109 can never be opened), with a
+   pre-existing file, re-opens in append mode, prune() after every write and one EMFILE recovery *)
+Example C19_hist_example :
+  let s := {| s_limit := 2; s_soft := []; s_hard := []; s_perm := [109] |} in
+  let w p c := {| w_path := p; w_str := [c; 59]; w_fa := false |} in
+  let ops := [w 162 48; w 109 49; w 7 50; w 162 51; w 109 52; w 162 53] in
+  let h := hl_hist 2 1 (script_oracle s) (assoc_fs [(162, [111; 108; 100])]) ops in
+  let fin := x_close (hl_final 2 1 (script_oracle s) (assoc_fs [(162, [111; 108; 100])]) ops) in
+  fa_consistentb ops = true /\
+  map xstatus h = [0; EOS; 0; 0; EOS; 0] /\
+  completed ops (map xstatus h) = [w 162 48; w 7 50; w 162 51; w 162 53] /\
+  rev (trace (base fin)) =
+    [EvOpen 162 false 0 true; EvOpen 109 false 1 false; EvClose 162; EvOpen 109 false 0 false;
+     EvOpen 7 false 0 true; EvOpen 162 true 1 true; EvOpen 109 false 2 false; EvClose 7; EvClose 162;
+     EvOpen 109 false 0 false; EvOpen 162 true 0 true; EvClose 162] /\
+  fs (base fin) 162 = Some [48; 59; 51; 59; 53; 59] /\ fs (base fin) 7 = Some [50; 59] /\ fs (base fin) 109 = None /\
+  spec_histb s (assoc_fs [(162, [111; 108; 100])]) ops [7; 109; 162] (map xstatus h) (fs (base fin)) = true.
+Proof. vm_compute. repeat split; reflexivity. Qed.
+Print Assumptions C19_hist_example.
+
+(* non-vacuity of C19_hist_resume: the second operation of that history raises *)
+Example C19_hist_resume_example :
+  let s := {| s_limit := 2; s_soft := []; s_hard := []; s_perm := [109] |} in
+  let w p c := {| w_path := p; w_str := [c; 59]; w_fa := false |} in
+  exists e xs', hl_xwrite 2 1 (script_oracle s) (hl_final 2 1 (script_oracle s) (fun _ => None) [w 162 48]) (w 109 49)
+                = XRaise e xs' /\ seen (base xs') = [162] /\ opens (base xs') = [].
+Proof. vm_compute. eexists. eexists. repeat split; reflexivity. Qed.
+Print Assumptions C19_hist_resume_example.
